@@ -307,6 +307,48 @@ fn check_i8(case: &I8Case, p: &mut Probe) -> Check {
     Ok(())
 }
 
+/// one arithmetic object serving thousands of layered updates at the envelope of the stated input
+/// bound (a decoder keeps its arithmetic for its whole life): 4000 updates of a check of degree 200
+/// whose variables sit at +-25 400 (the sum of 200 saturated messages) and whose old messages are
+/// +-127, interleaved with small checks; no call may panic, and the last update returns exactly what
+/// a fresh object returns for it
+fn long_lived_cases(_t: Tier) -> Vec<u8> {
+    vec![0, 1]
+}
+
+fn long_lived_one<A: I8Arith>(name: &str, fresh: fn() -> A, flavour: u8, p: &mut Probe) -> Check {
+    let mut a = fresh();
+    let d = 200usize;
+    let mk = |round: usize, d: usize| -> (Vec<SentMessage<i8>>, Vec<i16>) {
+        let chk: Vec<SentMessage<i8>> = (0..d).map(|i| SentMessage { dest: i, value: if (i + round) % 2 == 0 { 127 } else { -127 } }).collect();
+        let vars: Vec<i16> = (0..d).map(|i| if (i * 7 + round) % 3 == 0 { -25_400 } else { 25_400 - (i as i16) * (flavour as i16) }).collect();
+        (chk, vars)
+    };
+    for round in 0..4000usize {
+        let (mut chk, mut vars) = mk(round, if round % 5 == 4 { 3 + round % 6 } else { d });
+        guarded(|| a.update_check_messages_and_vars(&mut chk, &mut vars)).map_err(|e| Fail::new("layered-panic", format!("{name}: update number {} of one arithmetic object (check degree {}, variables at +-25 400) panicked: {e}", round + 1, chk.len())))?;
+        p.inner += 1;
+    }
+    let (mut c1, mut v1) = mk(4001, d);
+    let (mut c2, mut v2) = (c1.clone(), v1.clone());
+    guarded(|| a.update_check_messages_and_vars(&mut c1, &mut v1)).map_err(|e| Fail::new("layered-panic", format!("{name}: update 4001 of one arithmetic object panicked: {e}")))?;
+    let mut b = fresh();
+    b.update_check_messages_and_vars(&mut c2, &mut v2);
+    ensure!(v1 == v2 && c1.iter().zip(&c2).all(|(x, y)| x.dest == y.dest && x.value == y.value), "long-lived-object-differs", "{name}: after 4000 layered updates the arithmetic object returns other messages or variables than a fresh object for the same check");
+    Ok(())
+}
+
+fn check_long_lived(flavour: &u8, p: &mut Probe) -> Check {
+    macro_rules! all {
+        ($($t:ident),*) => {
+            $( long_lived_one(stringify!($t), <$t>::new, *flavour, p)?; )*
+        };
+    }
+    crate::with_i8_types!(all);
+    p.nontrivial();
+    Ok(())
+}
+
 /// fuzz-target body: a byte tape decoded into an 8-bit case (+ a quantiser probe)
 pub fn fuzz_bytes(data: &[u8]) -> Check {
     let mut it = data.iter().copied();
@@ -517,6 +559,13 @@ pub fn property() -> Property {
                 strategy: i8_strategy,
                 check: check_i8,
                 health: &[("total-beyond-127", 0.20), ("degree-one-clip-taken", 0.02), ("extrinsic-beyond-127", 0.10)],
+            }),
+            Box::new(EnumSub {
+                name: "long-lived-arithmetic",
+                rule: "each of the 16 8-bit arithmetics: one object performs 4000 layered updates (four in five on a check of degree 200 with variables at +-25 400 and old messages of +-127, the envelope of the stated bound; one in five on a check of degree 3..=8): no call panics, and update 4001 returns exactly what a fresh object returns",
+                cases: long_lived_cases,
+                check: check_long_lived,
+                exhaustive: false,
             }),
             Box::new(Sub {
                 name: "float-rules",
